@@ -45,6 +45,10 @@ const (
 	KTrendCap     Kind = "trend_capture"
 	KTrendList    Kind = "trend_list"
 	KReopen       Kind = "reopen"
+	// KChurn: Count fresh messages on a route of their own are enqueued, dequeued
+	// and acked one after the other (process age: id counters, order lists,
+	// free lists and compaction thresholds grow as in a long-running gateway).
+	KChurn Kind = "churn"
 )
 
 // LeaseRef names a lease symbolically so that the same operation can be applied
@@ -72,7 +76,11 @@ type Op struct {
 	TrendL  *queue.BacklogTrendListRequest    `json:"trend_list,omitempty"`
 	At      time.Time                         `json:"at,omitempty"`
 	Forced  bool                              `json:"forced,omitempty"` // dequeue whose batch covers every eligible message
+	Count   int                               `json:"count,omitempty"`  // churn
 }
+
+// ChurnRoute is used by KChurn only; generated operations never name it.
+const ChurnRoute = "/__churn"
 
 func (o Op) String() string {
 	switch o.Kind {
@@ -86,6 +94,8 @@ func (o Op) String() string {
 		return fmt.Sprintf("dequeue(route=%q target=%q batch=%d ttl=%s)", o.Deq.Route, o.Deq.Target, o.Deq.Batch, o.Deq.LeaseTTL)
 	case KAdvance:
 		return fmt.Sprintf("advance(%s)", o.Dur)
+	case KChurn:
+		return fmt.Sprintf("churn(%d)", o.Count)
 	}
 	return string(o.Kind)
 }
@@ -114,6 +124,7 @@ type Actor struct {
 	H      *vlib.Handle
 	leases map[string]map[int]string // msg -> attempt -> lease id
 	byID   map[string]LeaseRef       // lease id -> ref
+	churn  int
 }
 
 func NewActor(h *vlib.Handle) *Actor {
@@ -218,6 +229,26 @@ func (a *Actor) Apply(op Op) Res {
 		}
 		res.N = len(resp.Items)
 		a.remember(resp.Items)
+	case KChurn:
+		a.churn++
+		for i := 0; i < op.Count; i++ {
+			id := fmt.Sprintf("churn%03d-%05d", a.churn, i)
+			if err := st.Enqueue(queue.Envelope{ID: id, Route: ChurnRoute, Target: "pull", Payload: []byte("c")}); err != nil {
+				setErr(err)
+				return res
+			}
+			resp, err := st.Dequeue(queue.DequeueRequest{Route: ChurnRoute, Target: "pull", Batch: 1, LeaseTTL: time.Minute})
+			if err != nil || len(resp.Items) != 1 || resp.Items[0].ID != id {
+				res.Err, res.RawErr = "churn_dequeue", fmt.Sprintf("churn message %s: dequeue returned %d items, err %v", id, len(resp.Items), err)
+				return res
+			}
+			if err := st.Ack(resp.Items[0].LeaseID); err != nil {
+				setErr(err)
+				return res
+			}
+			res.N++
+		}
+		setErr(nil)
 	case KAck:
 		setErr(st.Ack(present()[0]))
 	case KNack:
